@@ -22,7 +22,7 @@ theorem mem_foldl_union (f : Var → Option (List Nat)) (vars : List Var) (init 
       · cases hf : f v with
         | none => simp only [hf, optUnion] at h; exact Or.inl h
         | some s =>
-          simp only [hf, optUnion, mem_listUnion] at h
+          simp only [hf, optUnion, mem_listUnionN] at h
           rcases h with h | h
           · exact Or.inl h
           · exact Or.inr ⟨v, Or.inl rfl, s, hf, h⟩
@@ -31,10 +31,10 @@ theorem mem_foldl_union (f : Var → Option (List Nat)) (vars : List Var) (init 
       · left
         cases hf : f v with
         | none => simpa [optUnion] using h
-        | some s => simp only [optUnion, mem_listUnion]; exact Or.inl h
+        | some s => simp only [optUnion, mem_listUnionN]; exact Or.inl h
       · rcases hu with rfl | hu
         · left
-          simp only [hs, optUnion, mem_listUnion]; exact Or.inr hy
+          simp only [hs, optUnion, mem_listUnionN]; exact Or.inr hy
         · exact Or.inr ⟨u, hu, s, hs, hy⟩
 
 /-- `connected_variables` of one iteration -/
@@ -52,7 +52,7 @@ theorem splitStep_eq (st : SplitSt) (n : Nat) (vars : List Var) :
 theorem mem_stepCv (st : SplitSt) (vars : List Var) (u : Var) :
     u ∈ stepCv st vars ↔ u ∈ vars ∨ ∃ v ∈ vars, ∃ S, alGet? st.vc v = some S ∧ u ∈ S := by
   unfold stepCv
-  rw [mem_foldl_union (fun v => alGet? st.vc v), mem_foldl_listInsert]
+  rw [mem_foldl_union (fun v => alGet? st.vc v), mem_foldl_listInsertN]
 
 theorem mem_stepCs (st : SplitSt) (n : Nat) (vars : List Var) (i : Nat) :
     i ∈ stepCs st n vars ↔ i = n ∨ ∃ v ∈ vars, ∃ C, alGet? st.cc v = some C ∧ i ∈ C := by
